@@ -1,6 +1,1908 @@
-//! C19 — not built yet.
-use mcx::{Ctx, Value};
-pub fn run(_ctx: &Ctx, _replay: Option<&Value>) -> i32 {
-    eprintln!("C19: check not built yet");
-    2
+//! C19 — decoders of untrusted bytes never panic and accept only what they can re-encode.
+//!
+//! Space (fault enumeration, every element executed on the real decoders):
+//!   (a) every byte string of length 0, 1, 2 for every decoder (length 3 for the small decoders in
+//!       the thorough tier);
+//!   (b) for every seed (a valid encoding produced by the real serialisers): the seed itself, every
+//!       single-bit flip, every truncation length, every offset re-interpreted as a little-endian
+//!       u8/u16/u32 field and set to {0, 1, v-1, v+1, max} (a superset of "every length field");
+//!       for the big seeds (proofs, stdlib library) the bit / offset / length sets are the stated
+//!       sub-sets (header and tail regions, bits 0 and 7 of every byte, structurally located length
+//!       fields, stride); in the thorough tier also every pair of bit flips in the first 32 bytes;
+//!   (c) nesting bombs: 1 … 2^17 nested `while` / `repeat` / `if` headers in a program body and in
+//!       a module procedure body, terminated and unterminated;
+//!   (d) `StackInputs::try_from_values`, `AdviceInputs::with_stack_values`, `StackOutputs::new`
+//!       with one value of {p-1, p, p+1, 2^64-1} at every position of vectors of length 1,16,17,40.
+//! Oracle: no panic (guard::catch), no abort / native stack overflow / hang (decoding runs in
+//! crash-isolated child processes on a thread with an 8 MiB stack, watched by the parent);
+//! `Ok(v)` ⇒ `encode(v)` does not panic, decodes again, the result equals `v` (PartialEq where
+//! implemented, else byte equality of the re-encoding) and re-encodes to the same bytes; for proofs
+//! additionally `verify` on the decoded proof with the honest statement does not panic.
+//!
+//! Process structure: the parent (this module with `VMC_C19_WORKER` unset) builds the seeds, cuts the
+//! space into tasks and feeds them to `LANES` long-lived children (the same executable started with
+//! `VMC_C19_WORKER=1`); a child publishes the index of the case it is working on in a shared
+//! memory-mapped cell, so that a death can be attributed to one input, which is then re-run alone
+//! in a fresh child to confirm that the death is deterministic.
+
+use assembly::{
+    ast::{AstSerdeOptions, ModuleAst, ProgramAst},
+    Library, LibraryNamespace, LibraryPath, MaslLibrary, Module, ProcedureId, ProcedureName, Version,
+};
+use mcx::{guard, json, Ctx, Tier, Value};
+use miden::{ExecutionProof, ProvingOptions};
+use processor::AdviceInputs;
+use std::collections::{BTreeMap, HashMap, HashSet, VecDeque};
+use std::io::{BufRead, BufReader, BufWriter, Read, Write};
+use std::path::{Path, PathBuf};
+use std::process::{Child, ChildStdin, ChildStdout, Command, Stdio};
+use std::sync::atomic::{AtomicBool, AtomicU64, Ordering};
+use std::sync::{Arc, Mutex};
+use std::time::{Duration, Instant};
+use vm_core::utils::{Deserializable, DeserializationError, Serializable};
+use vm_core::{Kernel, ProgramInfo, StackInputs, StackOutputs};
+
+const WORKER_ENV: &str = "VMC_C19_WORKER";
+const LANES: usize = 16;
+/// stack of the thread on which a child runs the decoders (the default main-thread stack of a
+/// Linux process; Rust's own default for spawned threads is smaller)
+const DECODE_STACK: usize = 8 << 20;
+const RSS_CAP_BYTES: u64 = 6 << 30;
+const HANG_CPU_SECS: u64 = 60;
+const HANG_WALL_SECS: u64 = 900;
+const MAX_DEATHS: u64 = 120;
+const MAX_LISTED_PER_SIGNATURE: u64 = 200;
+const P: u64 = 0xFFFF_FFFF_0000_0001;
+
+// DECODERS
+// ================================================================================================
+
+#[derive(Clone, Copy, PartialEq, Eq, Hash, Debug, PartialOrd, Ord)]
+enum Dec {
+    Proof,
+    ProofSer,
+    ProgramAst,
+    ModuleAst,
+    Masl,
+    Kernel,
+    ProgramInfo,
+    StackInputs,
+    StackOutputs,
+    LibraryPath,
+    ProcedureId,
+    ProcedureName,
+}
+
+impl Dec {
+    const ALL: [Dec; 12] = [
+        Dec::Proof,
+        Dec::ProofSer,
+        Dec::ProgramAst,
+        Dec::ModuleAst,
+        Dec::Masl,
+        Dec::Kernel,
+        Dec::ProgramInfo,
+        Dec::StackInputs,
+        Dec::StackOutputs,
+        Dec::LibraryPath,
+        Dec::ProcedureId,
+        Dec::ProcedureName,
+    ];
+    fn name(self) -> &'static str {
+        match self {
+            Dec::Proof => "ExecutionProof",
+            Dec::ProofSer => "ExecutionProof(Deserializable)",
+            Dec::ProgramAst => "ProgramAst",
+            Dec::ModuleAst => "ModuleAst",
+            Dec::Masl => "MaslLibrary",
+            Dec::Kernel => "Kernel",
+            Dec::ProgramInfo => "ProgramInfo",
+            Dec::StackInputs => "StackInputs",
+            Dec::StackOutputs => "StackOutputs",
+            Dec::LibraryPath => "LibraryPath",
+            Dec::ProcedureId => "ProcedureId",
+            Dec::ProcedureName => "ProcedureName",
+        }
+    }
+    fn from_name(s: &str) -> Dec {
+        *Dec::ALL.iter().find(|d| d.name() == s).unwrap_or_else(|| panic!("unknown decoder {s}"))
+    }
+    /// decoders for which all 2^24 three-byte strings are enumerated in the thorough tier
+    fn small(self) -> bool {
+        !matches!(self, Dec::Proof | Dec::ProofSer | Dec::Masl)
+    }
+}
+
+/// the honest statement a decoded proof is verified against
+struct ProofCtx {
+    info: ProgramInfo,
+    inputs: StackInputs,
+    outputs: StackOutputs,
+}
+
+/// what one input did: a coarse class for the histogram and, if the oracle is violated, the stage
+/// and the message
+struct Obs {
+    class: String,
+    fail: Option<(String, String)>,
+}
+
+fn err_class(e: &DeserializationError) -> String {
+    match e {
+        DeserializationError::InvalidValue(_) => "err:InvalidValue".into(),
+        DeserializationError::UnexpectedEOF => "err:UnexpectedEOF".into(),
+        DeserializationError::UnconsumedBytes => "err:UnconsumedBytes".into(),
+        DeserializationError::UnknownError(_) => "err:UnknownError".into(),
+    }
+}
+
+fn failed(stage: &str, msg: String) -> Obs {
+    Obs { class: format!("FAIL:{stage}"), fail: Some((stage.to_string(), msg)) }
+}
+
+/// decode → (encode → decode → compare → encode)* → extra; every subject call under guard::catch
+fn roundtrip<T>(
+    bytes: &[u8],
+    decode: impl Fn(&[u8]) -> Result<T, DeserializationError>,
+    encodings: impl Fn(&T) -> Vec<Vec<u8>>,
+    equal: impl Fn(&T, &T) -> bool,
+    extra: impl FnOnce(T) -> Obs,
+) -> Obs {
+    let v = match guard::catch(|| decode(bytes)) {
+        Err(p) => return failed("decode_panic", p),
+        Ok(Err(e)) => return Obs { class: err_class(&e), fail: None },
+        Ok(Ok(v)) => v,
+    };
+    let encs = match guard::catch(|| encodings(&v)) {
+        Err(p) => return failed("reencode_panic", p),
+        Ok(e) => e,
+    };
+    for (k, enc) in encs.iter().enumerate() {
+        let v2 = match guard::catch(|| decode(enc)) {
+            Err(p) => return failed("redecode_panic", p),
+            Ok(Err(e)) => return failed("redecode_err", format!("re-encoded value is rejected: {e:?}")),
+            Ok(Ok(v2)) => v2,
+        };
+        match guard::catch(|| equal(&v, &v2)) {
+            Err(p) => return failed("compare_panic", p),
+            Ok(false) => return failed("not_equal", "decode(encode(v)) != v".into()),
+            Ok(true) => {}
+        }
+        match guard::catch(|| encodings(&v2)) {
+            Err(p) => return failed("reencode_panic", p),
+            Ok(e2) => {
+                // the k-th serialisation mode of the re-decoded value must reproduce the k-th encoding
+                if e2.get(k) != Some(enc) {
+                    return failed("reencode_unstable", "encode(decode(encode(v))) != encode(v)".into());
+                }
+            }
+        }
+    }
+    extra(v)
+}
+
+fn accepted<T>(_: T) -> Obs {
+    Obs { class: "ok".into(), fail: None }
+}
+
+fn verify_extra(proof: ExecutionProof, pctx: Option<&ProofCtx>) -> Obs {
+    let Some(c) = pctx else { return accepted(()) };
+    let (info, inputs, outputs) = (c.info.clone(), c.inputs.clone(), c.outputs.clone());
+    match guard::catch(move || miden::verify(info, inputs, outputs, proof)) {
+        Err(p) => failed("verify_panic", p),
+        Ok(Ok(_)) => Obs { class: "ok:verify_ok".into(), fail: None },
+        Ok(Err(_)) => Obs { class: "ok:verify_err".into(), fail: None },
+    }
+}
+
+fn ast_opts() -> [AstSerdeOptions; 2] {
+    [AstSerdeOptions::new(true), AstSerdeOptions::new(false)]
+}
+
+/// Runs one input through one decoder and the oracle.
+fn observe(dec: Dec, bytes: &[u8], pctx: Option<&ProofCtx>) -> Obs {
+    fn ser<T: Serializable>(v: &T) -> Vec<Vec<u8>> {
+        vec![Serializable::to_bytes(v)]
+    }
+    match dec {
+        Dec::Proof => roundtrip(
+            bytes,
+            ExecutionProof::from_bytes,
+            |p| vec![ExecutionProof::to_bytes(p)],
+            |a, b| a == b,
+            |p| verify_extra(p, pctx),
+        ),
+        Dec::ProofSer => roundtrip(
+            bytes,
+            <ExecutionProof as Deserializable>::read_from_bytes,
+            ser,
+            |a, b| a == b,
+            |p| verify_extra(p, pctx),
+        ),
+        Dec::ProgramAst => roundtrip(
+            bytes,
+            ProgramAst::from_bytes,
+            // an accepted AST must survive both serialisation modes; without imports the
+            // re-decoded value is compared after clearing the imports of the original
+            |p| ast_opts().iter().map(|o| p.to_bytes(*o)).collect(),
+            |a, b| a == b || { let mut a2 = a.clone(); a2.clear_imports(); a2 == *b },
+            accepted,
+        ),
+        Dec::ModuleAst => roundtrip(
+            bytes,
+            ModuleAst::from_bytes,
+            |m| ast_opts().iter().map(|o| m.to_bytes(*o)).collect(),
+            |a, b| a == b || { let mut a2 = a.clone(); a2.clear_imports(); a2 == *b },
+            accepted,
+        ),
+        Dec::Masl => roundtrip(bytes, MaslLibrary::read_from_bytes, ser, |a, b| a == b, accepted),
+        Dec::Kernel => roundtrip(bytes, Kernel::read_from_bytes, ser, |a, b| a == b, accepted),
+        Dec::ProgramInfo => roundtrip(bytes, ProgramInfo::read_from_bytes, ser, |a, b| a == b, accepted),
+        Dec::StackInputs => roundtrip(
+            bytes,
+            StackInputs::read_from_bytes,
+            ser,
+            |a, b| a.values() == b.values(),
+            accepted,
+        ),
+        Dec::StackOutputs => roundtrip(bytes, StackOutputs::read_from_bytes, ser, |a, b| a == b, accepted),
+        Dec::LibraryPath => roundtrip(bytes, LibraryPath::read_from_bytes, ser, |a, b| a == b, accepted),
+        Dec::ProcedureId => roundtrip(bytes, ProcedureId::read_from_bytes, ser, |a, b| a == b, accepted),
+        Dec::ProcedureName => roundtrip(bytes, ProcedureName::read_from_bytes, ser, |a, b| a == b, accepted),
+    }
+}
+
+// FAMILIES OF INPUTS
+// ================================================================================================
+
+const FIELD_WIDTHS: [usize; 3] = [1, 2, 4];
+const FIELD_VALUES: usize = 5;
+const NEST_KINDS: [&str; 3] = ["while", "repeat", "if"];
+const NEST_DEPTHS: [usize; 6] = [1, 10, 100, 1000, 10_000, 1 << 17];
+const NEST_STACKS_MIB: [usize; 2] = [2, 8];
+
+/// A finite, indexable family of inputs derived from a seed (or from nothing). Parent and child
+/// expand the same textual spec, so a case is identified by (decoder, seed, spec, index).
+#[derive(Clone, Debug)]
+enum Fam {
+    /// all byte strings of length 0..=max_len, shortest first
+    All { max_len: usize },
+    /// all byte strings of exactly this length
+    Exact { len: usize },
+    /// the seed itself
+    Raw,
+    Flip1 { bits: Vec<u32> },
+    /// all pairs i<j of the first `nbits` bits
+    Flip2 { pairs: Vec<(u16, u16)> },
+    Trunc { lens: Vec<u32> },
+    /// offsets × widths {1,2,4} × values {0,1,v-1,v+1,max}
+    Field { offs: Vec<u32> },
+    /// kind × depth × {terminated, unterminated}; container 0 = program body, 1 = module procedure
+    Nest { container: u8 },
+}
+
+fn ht_positions(len: usize, head: usize, tail: usize) -> Vec<u32> {
+    let mut v: Vec<u32> = (0..len.min(head)).map(|x| x as u32).collect();
+    v.extend((len.saturating_sub(tail)..len).map(|x| x as u32));
+    v
+}
+
+impl Fam {
+    fn parse(spec: &str, seed_len: usize) -> Fam {
+        let parts: Vec<&str> = spec.split(':').collect();
+        let num = |i: usize| -> usize { parts[i].parse().unwrap_or_else(|_| panic!("bad family spec {spec}")) };
+        match parts[0] {
+            "all" => Fam::All { max_len: num(1) },
+            "exact" => Fam::Exact { len: num(1) },
+            "raw" => Fam::Raw,
+            "flip1" => {
+                let mut bits: Vec<u32> = match parts[1] {
+                    "all" => (0..seed_len as u32 * 8).collect(),
+                    // all bits of the first `head` and last `tail` bytes + bits 0 and 7 of every
+                    // `stride`-th byte
+                    "ht" => {
+                        let (head, tail, stride) = (num(2), num(3), num(4));
+                        let mut b = vec![];
+                        for o in ht_positions(seed_len, head, tail) {
+                            b.extend((0..8).map(|k| o * 8 + k));
+                        }
+                        for o in (0..seed_len).step_by(stride.max(1)) {
+                            b.push(o as u32 * 8);
+                            b.push(o as u32 * 8 + 7);
+                        }
+                        b
+                    }
+                    _ => panic!("bad family spec {spec}"),
+                };
+                bits.sort_unstable();
+                bits.dedup();
+                Fam::Flip1 { bits }
+            }
+            "flip2" => {
+                let nbits = (num(1) * 8).min(seed_len * 8);
+                let mut pairs = vec![];
+                for i in 0..nbits {
+                    for j in i + 1..nbits {
+                        pairs.push((i as u16, j as u16));
+                    }
+                }
+                Fam::Flip2 { pairs }
+            }
+            "trunc" => {
+                let mut lens: Vec<u32> = match parts[1] {
+                    "all" => (0..seed_len as u32).collect(),
+                    "ht" => {
+                        let (head, tail, stride) = (num(2), num(3), num(4));
+                        let mut l = ht_positions(seed_len, head, tail);
+                        l.extend((0..seed_len).step_by(stride.max(1)).map(|x| x as u32));
+                        l
+                    }
+                    _ => panic!("bad family spec {spec}"),
+                };
+                lens.sort_unstable();
+                lens.dedup();
+                Fam::Trunc { lens }
+            }
+            "field" => {
+                let mut offs: Vec<u32> = match parts[1] {
+                    "all" => (0..seed_len as u32).collect(),
+                    "at" => parts[2].split(',').filter(|s| !s.is_empty()).map(|s| s.parse().expect("offset")).collect(),
+                    _ => panic!("bad family spec {spec}"),
+                };
+                offs.sort_unstable();
+                offs.dedup();
+                offs.retain(|&o| (o as usize) < seed_len);
+                Fam::Field { offs }
+            }
+            // nest:<container>:<stack MiB of the decoding thread>
+            "nest" => Fam::Nest { container: num(1) as u8 },
+            _ => panic!("bad family spec {spec}"),
+        }
+    }
+
+    fn kind(spec: &str) -> &str {
+        spec.split(':').next().unwrap_or("")
+    }
+
+    fn count(&self) -> u64 {
+        match self {
+            Fam::All { max_len } => (0..=*max_len).map(|l| 256u64.pow(l as u32)).sum(),
+            Fam::Exact { len } => 256u64.pow(*len as u32),
+            Fam::Raw => 1,
+            Fam::Flip1 { bits } => bits.len() as u64,
+            Fam::Flip2 { pairs } => pairs.len() as u64,
+            Fam::Trunc { lens } => lens.len() as u64,
+            Fam::Field { offs } => (offs.len() * FIELD_WIDTHS.len() * FIELD_VALUES) as u64,
+            Fam::Nest { .. } => (NEST_KINDS.len() * NEST_DEPTHS.len() * 2) as u64,
+        }
+    }
+
+    fn field_case(offs: &[u32], idx: u64) -> (usize, usize, usize) {
+        let per = (FIELD_WIDTHS.len() * FIELD_VALUES) as u64;
+        let o = offs[(idx / per) as usize] as usize;
+        let r = (idx % per) as usize;
+        (o, FIELD_WIDTHS[r / FIELD_VALUES], r % FIELD_VALUES)
+    }
+
+    fn nest_case(idx: u64) -> (usize, usize, bool) {
+        let idx = idx as usize;
+        let kind = idx / (NEST_DEPTHS.len() * 2);
+        let r = idx % (NEST_DEPTHS.len() * 2);
+        (kind, NEST_DEPTHS[r / 2], r % 2 == 0)
+    }
+
+    /// same as `bytes`, into a reused buffer (seed-sized copies of big seeds would otherwise be
+    /// a fresh memory mapping per case)
+    fn bytes_into(&self, seed: &[u8], idx: u64, buf: &mut Vec<u8>) {
+        buf.clear();
+        match self {
+            Fam::Flip1 { bits } => {
+                buf.extend_from_slice(seed);
+                let bit = bits[idx as usize] as usize;
+                buf[bit / 8] ^= 1 << (bit % 8);
+            }
+            Fam::Trunc { lens } => buf.extend_from_slice(&seed[..lens[idx as usize] as usize]),
+            Fam::Field { offs } => {
+                let (o, window) = Fam::field_window(seed, offs, idx);
+                buf.extend_from_slice(seed);
+                buf[o..o + window.len()].copy_from_slice(&window);
+            }
+            _ => *buf = self.bytes(seed, idx),
+        }
+    }
+
+    fn bytes(&self, seed: &[u8], idx: u64) -> Vec<u8> {
+        match self {
+            Fam::All { .. } => {
+                let (mut len, mut rest) = (0usize, idx);
+                while rest >= 256u64.pow(len as u32) {
+                    rest -= 256u64.pow(len as u32);
+                    len += 1;
+                }
+                (0..len).map(|k| (rest >> (8 * (len - 1 - k))) as u8).collect()
+            }
+            Fam::Exact { len } => (0..*len).map(|k| (idx >> (8 * (len - 1 - k))) as u8).collect(),
+            Fam::Raw => seed.to_vec(),
+            Fam::Flip1 { bits } => {
+                let mut b = seed.to_vec();
+                let bit = bits[idx as usize] as usize;
+                b[bit / 8] ^= 1 << (bit % 8);
+                b
+            }
+            Fam::Flip2 { pairs } => {
+                let mut b = seed.to_vec();
+                let (i, j) = pairs[idx as usize];
+                b[i as usize / 8] ^= 1 << (i % 8);
+                b[j as usize / 8] ^= 1 << (j % 8);
+                b
+            }
+            Fam::Trunc { lens } => seed[..lens[idx as usize] as usize].to_vec(),
+            Fam::Field { offs } => {
+                let (o, window) = Fam::field_window(seed, offs, idx);
+                let mut b = seed.to_vec();
+                b[o..o + window.len()].copy_from_slice(&window);
+                b
+            }
+            Fam::Nest { container } => {
+                let (kind, depth, terminated) = Fam::nest_case(idx);
+                let mut b: Vec<u8> = if *container == 0 {
+                    // ProgramAst: options(no imports), 0 procedures, 1 body node
+                    vec![0, 0, 0, 1, 0]
+                } else {
+                    // ModuleAst: options(no imports), no docs, 0 re-exports, 1 procedure "f":
+                    // no docs, exported, 0 locals, 1 body node
+                    vec![0, 0, 0, 0, 0, 1, 0, 1, b'f', 0, 0, 1, 0, 0, 1, 0]
+                };
+                let (open, innermost): (&[u8], &[u8]) = match kind {
+                    0 => (&[255, 1, 0], &[255, 0, 0]),
+                    1 => (&[254, 1, 0, 0, 0, 1, 0], &[254, 1, 0, 0, 0, 0, 0]),
+                    _ => (&[253, 1, 0], &[253, 0, 0, 0, 0]),
+                };
+                if terminated {
+                    for _ in 0..depth - 1 {
+                        b.extend_from_slice(open);
+                    }
+                    b.extend_from_slice(innermost);
+                    if kind == 2 {
+                        // every enclosing `if` has an empty else branch
+                        b.extend(std::iter::repeat(0u8).take(2 * (depth - 1)));
+                    }
+                } else {
+                    for _ in 0..depth {
+                        b.extend_from_slice(open);
+                    }
+                }
+                b
+            }
+        }
+    }
+
+    fn describe(&self, idx: u64) -> String {
+        match self {
+            Fam::All { .. } | Fam::Exact { .. } => format!("enumerated byte string #{idx}"),
+            Fam::Raw => "the unmodified seed".into(),
+            Fam::Flip1 { bits } => {
+                let b = bits[idx as usize];
+                format!("flip bit {} of byte {}", b % 8, b / 8)
+            }
+            Fam::Flip2 { pairs } => {
+                let (i, j) = pairs[idx as usize];
+                format!("flip bit {} of byte {} and bit {} of byte {}", i % 8, i / 8, j % 8, j / 8)
+            }
+            Fam::Trunc { lens } => format!("truncate to {} bytes", lens[idx as usize]),
+            Fam::Field { offs } => {
+                let (o, w, vi) = Fam::field_case(offs, idx);
+                format!("u{} little-endian field at offset {o} set to {}", 8 * w, ["0", "1", "v-1", "v+1", "max"][vi])
+            }
+            Fam::Nest { container } => {
+                let (kind, depth, terminated) = Fam::nest_case(idx);
+                format!(
+                    "{depth} nested `{}` headers in a {} body, {}",
+                    NEST_KINDS[kind],
+                    if *container == 0 { "program" } else { "module procedure" },
+                    if terminated { "terminated" } else { "unterminated" }
+                )
+            }
+        }
+    }
+}
+
+// WORKER (child process)
+// ================================================================================================
+
+/// 16-byte shared cell: (task id, index of the case being processed; u64::MAX = idle)
+struct Progress {
+    ptr: *mut u64,
+}
+unsafe impl Send for Progress {}
+unsafe impl Sync for Progress {}
+
+impl Progress {
+    fn open(path: &str) -> Progress {
+        use std::os::unix::io::AsRawFd;
+        let f = std::fs::OpenOptions::new().read(true).write(true).open(path).expect("progress file");
+        let p = unsafe {
+            libc::mmap(std::ptr::null_mut(), 16, libc::PROT_READ | libc::PROT_WRITE, libc::MAP_SHARED, f.as_raw_fd(), 0)
+        };
+        assert!(p != libc::MAP_FAILED, "mmap of the progress cell failed");
+        Progress { ptr: p as *mut u64 }
+    }
+    fn set(&self, task: u64, idx: u64) {
+        unsafe {
+            std::ptr::write_volatile(self.ptr, task);
+            std::ptr::write_volatile(self.ptr.add(1), idx);
+        }
+    }
+}
+
+fn unhex(s: &str) -> Vec<u8> {
+    assert!(s.len() % 2 == 0, "odd hex length");
+    (0..s.len() / 2).map(|i| u8::from_str_radix(&s[2 * i..2 * i + 2], 16).expect("hex digit")).collect()
+}
+
+fn hex(b: &[u8]) -> String {
+    const D: &[u8; 16] = b"0123456789abcdef";
+    let mut s = String::with_capacity(b.len() * 2);
+    for x in b {
+        s.push(D[(x >> 4) as usize] as char);
+        s.push(D[(x & 15) as usize] as char);
+    }
+    s
+}
+
+fn one_line(s: &str) -> String {
+    s.replace(['\n', '\t', '\r'], " ")
+}
+
+fn worker_main() -> i32 {
+    // performance only: keep blocks of up to 32 MiB (re-encodings of the big seeds) on the heap
+    // instead of a fresh memory mapping per case
+    unsafe {
+        libc::mallopt(libc::M_MMAP_THRESHOLD, 32 << 20);
+        libc::mallopt(libc::M_TRIM_THRESHOLD, 512 << 20);
+        libc::mallopt(libc::M_TOP_PAD, 64 << 20);
+    }
+    let stdin = std::io::stdin();
+    let mut seeds: HashMap<usize, Vec<u8>> = HashMap::new();
+    let mut pctxs: HashMap<usize, ProofCtx> = HashMap::new();
+    let mut progress: Option<Progress> = None;
+    let empty: Vec<u8> = vec![];
+    for line in stdin.lock().lines() {
+        let line = line.expect("worker stdin");
+        let f: Vec<&str> = line.split('\t').collect();
+        match f[0] {
+            "P" => progress = Some(Progress::open(f[1])),
+            "S" => {
+                seeds.insert(f[1].parse().expect("seed id"), unhex(f[2]));
+            }
+            "C" => {
+                // if the statement itself does not survive serialisation (that is reported through
+                // the ProgramInfo / StackInputs / StackOutputs seeds) the proofs are decoded without
+                // the verification step
+                let c = guard::catch(|| {
+                    Ok::<_, DeserializationError>(ProofCtx {
+                        info: ProgramInfo::read_from_bytes(&unhex(f[2]))?,
+                        inputs: StackInputs::read_from_bytes(&unhex(f[3]))?,
+                        outputs: StackOutputs::read_from_bytes(&unhex(f[4]))?,
+                    })
+                });
+                if let Ok(Ok(c)) = c {
+                    pctxs.insert(f[1].parse().expect("seed id"), c);
+                }
+            }
+            "T" => {
+                let task_id: u64 = f[1].parse().expect("task id");
+                let dec = Dec::from_name(f[2]);
+                let seed_id: Option<usize> = f[3].parse().ok();
+                let spec = f[4];
+                let start: u64 = f[5].parse().expect("start");
+                let end: u64 = f[6].parse().expect("end");
+                let seed: &Vec<u8> = seed_id.map(|i| seeds.get(&i).expect("seed not sent")).unwrap_or(&empty);
+                let pctx = seed_id.and_then(|i| pctxs.get(&i));
+                let prog = progress.as_ref().expect("progress cell not announced");
+                let stack = decode_stack_for(spec);
+                let out = std::thread::scope(|s| {
+                    std::thread::Builder::new()
+                        .name("decode".into())
+                        .stack_size(stack)
+                        .spawn_scoped(s, || run_task(prog, task_id, dec, seed, pctx, spec, start, end))
+                        .expect("spawn decode thread")
+                        .join()
+                        .expect("decode thread panicked outside of guard::catch")
+                });
+                let so = std::io::stdout();
+                let mut so = so.lock();
+                so.write_all(out.as_bytes()).expect("worker stdout");
+                writeln!(so, "D\t{task_id}").expect("worker stdout");
+                so.flush().expect("worker stdout");
+            }
+            other => panic!("worker: unknown message {other}"),
+        }
+    }
+    0
+}
+
+/// stack size of the decoding thread: 8 MiB, except where a nest-bomb family states another size
+fn decode_stack_for(spec: &str) -> usize {
+    let parts: Vec<&str> = spec.split(':').collect();
+    if parts[0] == "nest" && parts.len() > 2 {
+        parts[2].parse::<usize>().expect("stack MiB") << 20
+    } else if parts[0] == "raw" && parts.len() > 1 {
+        parts[1].parse::<usize>().expect("stack MiB") << 20
+    } else {
+        DECODE_STACK
+    }
+}
+
+fn run_task(
+    prog: &Progress,
+    task_id: u64,
+    dec: Dec,
+    seed: &[u8],
+    pctx: Option<&ProofCtx>,
+    spec: &str,
+    start: u64,
+    end: u64,
+) -> String {
+    let fam = Fam::parse(spec, seed.len());
+    assert!(end <= fam.count(), "task range exceeds family size");
+    let mut hist: BTreeMap<String, u64> = BTreeMap::new();
+    let mut out = String::new();
+    let mut bytes = Vec::new();
+    let t0 = Instant::now();
+    let mut slowest = (0u128, start);
+    for idx in start..end {
+        prog.set(task_id, idx);
+        fam.bytes_into(seed, idx, &mut bytes);
+        let tc = Instant::now();
+        let obs = observe(dec, &bytes, pctx);
+        let dt = tc.elapsed().as_micros();
+        if dt > slowest.0 {
+            slowest = (dt, idx);
+        }
+        if idx == start {
+            out.push_str(&format!("M\t{idx}\t{}\n", obs.class));
+        }
+        *hist.entry(obs.class).or_insert(0) += 1;
+        if let Some((stage, msg)) = obs.fail {
+            out.push_str(&format!("F\t{idx}\t{stage}\t{}\n", one_line(&msg)));
+        }
+    }
+    prog.set(task_id, u64::MAX);
+    out.push_str(&format!("E\t{}\n", t0.elapsed().as_micros()));
+    out.push_str(&format!("X\t{}\t{}\n", slowest.1, slowest.0));
+    for (k, v) in hist {
+        out.push_str(&format!("H\t{k}\t{v}\n"));
+    }
+    out
+}
+
+// PARENT: seeds
+// ================================================================================================
+
+struct Seed {
+    id: usize,
+    name: String,
+    dec: Dec,
+    bytes: Arc<Vec<u8>>,
+    /// serialised (program info, stack inputs, stack outputs) for proofs
+    pctx: Option<[Vec<u8>; 3]>,
+    /// offsets of length / count fields located structurally (used for the big seeds)
+    located: Vec<u32>,
+}
+
+const SRC_CTRL: &str = "
+use.std::math::u64
+use.std::sys
+proc.foo.2
+    loc_store.0 loc_load.1 add
+end
+proc.bar
+    push.1 if.true push.2 else push.3 push.4 end drop
+end
+begin
+    push.0xffffffff00000000 push.1.2.3.4 push.70000.5 drop dropw dropw
+    exec.foo call.bar
+    push.1
+    if.true
+        repeat.3
+            push.0 while.true push.0 end
+        end
+    else
+        push.1 while.true repeat.2 push.1 if.true add.7 end end push.0 end
+    end
+    push.1 if.true end
+    exec.u64::wrapping_add
+    mem_store.1000 mem_loadw.4294967295 adv.push_mapval.2 u32shl.31 debug.stack.5 emit.77 trace.9
+    exec.sys::truncate_stack
+end";
+
+const SRC_INSTR: &str = "
+proc.p.3
+    locaddr.2 loc_loadw.1 loc_storew.0 debug.local.0.2 debug.local
+end
+begin
+    assert assert.err=5 assert_eq.err=4294967295 assertz assert_eqw
+    add.18446744069414584320 sub.255 mul.65536 div.3 exp.u7 exp.12 eq.9 neq.0 u32assert2.err=1
+    u32wrapping_add.4294967295 u32overflowing_sub.1 u32div.7 u32divmod.9 u32rotr.31 u32shr.0
+    dup.15 dupw.3 swap.15 swapw.3 movup.15 movdn.2 movupw.3 movdnw.2 cswapw cdropw
+    push.255 push.256 push.65536 push.4294967296 push.1.2 push.256.1 push.65536.1 push.4294967296.1.2
+    adv_push.16 adv_loadw adv.push_u64div adv.insert_hdword.3 adv.push_sig.rpo_falcon512 adv.push_mapvaln.12
+    mem_load mem_load.0 mem_storew.77 mem_stream adv_pipe hash hmerge hperm mtree_get
+    call.0x0000000000000000000000000000000000000000000000000000000000000000
+    exec.p call.p procref.p dynexec dyncall sdepth clk caller
+    debug.mem debug.mem.5 debug.mem.1.9 debug.stack fri_ext2fold4 rcomb_base ext2mul
+end";
+
+const SRC_MOD_SMALL: &str = "
+#! module docs
+#! second line
+
+#! adds one
+export.inc
+    add.1
+end
+
+proc.helper.1
+    loc_store.0
+end
+
+#! uses the helper
+export.twice.4
+    exec.helper exec.inc exec.inc
+end";
+
+const SRC_MOD_FULL: &str = "
+#! a module with imports and re-exports
+
+use.std::math::u64
+use.std::math::u256
+
+#! re-exported addition
+export.u64::wrapping_add
+
+export.u256::add_unsafe->add256
+
+#! wrapping multiplication of the two u64 on the stack
+export.mul.2
+    exec.u64::wrapping_mul
+    push.1 if.true while.true repeat.2 push.0 end end else call.u64::wrapping_add end
+end";
+
+fn parse_program(src: &str) -> ProgramAst {
+    ProgramAst::parse(src).unwrap_or_else(|e| panic!("seed program must parse: {e}\n{src}"))
+}
+
+fn parse_module(src: &str) -> ModuleAst {
+    ModuleAst::parse(src).unwrap_or_else(|e| panic!("seed module must parse: {e}\n{src}"))
+}
+
+fn small_library(with_locations: bool) -> MaslLibrary {
+    let ns = LibraryNamespace::new("mylib").expect("namespace");
+    let m1 = Module::new(LibraryPath::new("mylib::arith").expect("path"), parse_module(SRC_MOD_SMALL));
+    let m2 = Module::new(LibraryPath::new("mylib::wide::ops").expect("path"), parse_module(SRC_MOD_FULL));
+    MaslLibrary::new(
+        ns,
+        Version { major: 1, minor: 2, patch: 65535 },
+        with_locations,
+        vec![m1, m2],
+        vec![LibraryNamespace::new("std").expect("namespace")],
+    )
+    .expect("small library")
+}
+
+fn digests(n: usize) -> Vec<vm_core::crypto::hash::RpoDigest> {
+    use vm_core::Felt;
+    (0..n)
+        .map(|i| {
+            let i = i as u64;
+            vm_core::crypto::hash::RpoDigest::new([
+                Felt::new(i * 7 + 1),
+                Felt::new(P - 1 - i),
+                Felt::new(i << 32),
+                Felt::new(0x0123_4567_89ab_cdef ^ i),
+            ])
+        })
+        .collect()
+}
+
+/// offsets of the length / count fields of a serialised proof, found by walking the documented
+/// layout of winterfell's `StarkProof` with the real component sizes
+fn locate_proof_fields(proof: &ExecutionProof, bytes: &[u8]) -> Vec<u32> {
+    let rd16 = |o: usize| u16::from_le_bytes([bytes[o], bytes[o + 1]]) as usize;
+    let rd32 = |o: usize| u32::from_le_bytes([bytes[o], bytes[o + 1], bytes[o + 2], bytes[o + 3]]) as usize;
+    let mut f = vec![];
+    let mut o = 1 + Serializable::to_bytes(&proof.proof.context).len();
+    f.push(o); // num_unique_queries
+    o += 1;
+    f.push(o); // commitments: u16 length
+    o += 2 + rd16(o);
+    let segments = proof.proof.context.trace_layout().num_segments();
+    for _ in 0..segments + 1 {
+        // trace queries per segment, then constraint queries: two u32-prefixed blobs each
+        for _ in 0..2 {
+            f.push(o);
+            o += 4 + rd32(o);
+        }
+    }
+    for _ in 0..2 {
+        // OOD frame: two u16-prefixed blobs
+        f.push(o);
+        o += 2 + rd16(o);
+    }
+    let layers = bytes[o] as usize;
+    f.push(o);
+    o += 1;
+    for _ in 0..layers {
+        for _ in 0..2 {
+            f.push(o);
+            o += 4 + rd32(o);
+        }
+    }
+    f.push(o); // remainder: u16 length
+    o += 2 + rd16(o);
+    f.push(o); // num_partitions
+    o += 1;
+    f.push(o); // pow nonce
+    o += 8;
+    assert_eq!(o, bytes.len(), "proof layout walker is out of sync with the real encoding");
+    f.into_iter().map(|x| x as u32).collect()
+}
+
+/// offsets of the per-module length / count fields of a serialised library (module path length,
+/// docs length, import count, first import), found from the sizes of the separately serialised parts
+fn locate_library_fields(lib: &MaslLibrary, bytes: &[u8]) -> Vec<u32> {
+    let mut f = vec![];
+    let mut o = 1 + lib.root_ns().len() + 6;
+    f.push(o); // dependency count
+    o += 2;
+    for d in lib.dependencies() {
+        f.push(o);
+        o += 1 + d.len();
+    }
+    f.push(o); // module count
+    o += 2;
+    for m in lib.modules() {
+        let path = m.path.strip_first().expect("module path");
+        let path_len = Serializable::to_bytes(&path).len();
+        let mut body = Vec::new();
+        m.ast.write_into(&mut body, AstSerdeOptions::new(true));
+        let docs_len = m.ast.docs().map(|d| d.len()).unwrap_or(0);
+        f.push(o); // path length
+        f.push(o + path_len); // docs length
+        let after_docs = o + path_len + 2 + docs_len;
+        f.extend(after_docs..after_docs + 8); // import count, first import path length ...
+        // the last 8 bytes of the module: tail of its last procedure body
+        let end = o + path_len + body.len();
+        f.extend(end - 8..end);
+        o = end;
+    }
+    f.push(o); // has_source_locations flag
+    o += 1;
+    assert!(o <= bytes.len() && bytes[o - 1] <= 1, "library layout walker is out of sync with the real encoding");
+    f.into_iter().map(|x| x as u32).collect()
+}
+
+fn make_proof(src: &str, stack_top_first: &[u64], kernel: Option<&str>) -> (ExecutionProof, [Vec<u8>; 3]) {
+    let asm = match kernel {
+        Some(k) => crate::common::assembler_with_kernel(k),
+        None => crate::common::assembler(),
+    };
+    let program = asm.compile(src).unwrap_or_else(|e| panic!("seed program must assemble: {e}"));
+    let inputs = crate::common::stack_inputs(stack_top_first);
+    let (outputs, proof) = miden::prove(
+        &program,
+        inputs.clone(),
+        crate::common::host(&[]),
+        ProvingOptions::with_96_bit_security(false),
+    )
+    .expect("seed program must be provable");
+    let info = ProgramInfo::from(program);
+    miden::verify(info.clone(), inputs.clone(), outputs.clone(), proof.clone()).expect("honest seed proof must verify");
+    (proof, [Serializable::to_bytes(&info), Serializable::to_bytes(&inputs), Serializable::to_bytes(&outputs)])
+}
+
+fn build_seeds() -> Vec<Seed> {
+    let mut seeds: Vec<Seed> = vec![];
+    let mut add = |name: &str, dec: Dec, bytes: Vec<u8>, pctx: Option<[Vec<u8>; 3]>, located: Vec<u32>| {
+        let id = seeds.len();
+        seeds.push(Seed { id, name: name.to_string(), dec, bytes: Arc::new(bytes), pctx, located });
+    };
+    let with = AstSerdeOptions::new(true);
+    let without = AstSerdeOptions::new(false);
+
+    // programs
+    add("program:minimal", Dec::ProgramAst, parse_program("begin add end").to_bytes(with), None, vec![]);
+    add("program:control+imports", Dec::ProgramAst, parse_program(SRC_CTRL).to_bytes(with), None, vec![]);
+    add("program:control,no-imports", Dec::ProgramAst, parse_program(SRC_CTRL).to_bytes(without), None, vec![]);
+    add("program:instructions", Dec::ProgramAst, parse_program(SRC_INSTR).to_bytes(with), None, vec![]);
+    // modules
+    add("module:docs+procs", Dec::ModuleAst, parse_module(SRC_MOD_SMALL).to_bytes(with), None, vec![]);
+    add("module:imports+reexports", Dec::ModuleAst, parse_module(SRC_MOD_FULL).to_bytes(with), None, vec![]);
+    add("module:imports+reexports,no-imports", Dec::ModuleAst, parse_module(SRC_MOD_FULL).to_bytes(without), None, vec![]);
+    // libraries
+    add("library:small", Dec::Masl, Serializable::to_bytes(&small_library(false)), None, vec![]);
+    add("library:small+locations", Dec::Masl, Serializable::to_bytes(&small_library(true)), None, vec![]);
+    let stdlib: MaslLibrary = stdlib::StdLibrary::default().into();
+    let std_bytes = Serializable::to_bytes(&stdlib);
+    let located = locate_library_fields(&stdlib, &std_bytes);
+    add("library:stdlib", Dec::Masl, std_bytes, None, located);
+    // kernels and program info
+    for n in [0usize, 1, 3] {
+        let k = Kernel::new(&digests(n)).expect("kernel");
+        add(&format!("kernel:{n}"), Dec::Kernel, Serializable::to_bytes(&k), None, vec![]);
+    }
+    let d = digests(4);
+    add("program-info:no-kernel", Dec::ProgramInfo, Serializable::to_bytes(&ProgramInfo::new(d[3], Kernel::default())), None, vec![]);
+    add(
+        "program-info:kernel-3",
+        Dec::ProgramInfo,
+        Serializable::to_bytes(&ProgramInfo::new(d[3], Kernel::new(&d[..3]).expect("kernel"))),
+        None,
+        vec![],
+    );
+    // stack inputs / outputs
+    for n in [0usize, 1, 16, 17, 40] {
+        let vals: Vec<u64> = (0..n as u64).map(|i| if i % 3 == 0 { P - 1 - i } else { i * i + 1 }).collect();
+        let si = StackInputs::try_from_values(vals.clone()).expect("stack inputs");
+        add(&format!("stack-inputs:{n}"), Dec::StackInputs, Serializable::to_bytes(&si), None, vec![]);
+        let ov: Vec<u64> = if n > 16 { (0..(n + 1 - 16) as u64).map(|i| i * 5).collect() } else { vec![] };
+        let so = StackOutputs::new(vals, ov).expect("stack outputs");
+        add(&format!("stack-outputs:{n}"), Dec::StackOutputs, Serializable::to_bytes(&so), None, vec![]);
+    }
+    // paths, names, ids
+    for p in ["std::math::u64", "a", "#exec::foo::bar", "#sys::k"] {
+        let lp = LibraryPath::new(p).expect("library path");
+        add(&format!("path:{p}"), Dec::LibraryPath, Serializable::to_bytes(&lp), None, vec![]);
+    }
+    add("path:kernel_path()", Dec::LibraryPath, Serializable::to_bytes(&LibraryPath::kernel_path()), None, vec![]);
+    add("path:exec_path()", Dec::LibraryPath, Serializable::to_bytes(&LibraryPath::exec_path()), None, vec![]);
+    add(
+        "proc-name:checked_add",
+        Dec::ProcedureName,
+        Serializable::to_bytes(&ProcedureName::try_from("checked_add").expect("name")),
+        None,
+        vec![],
+    );
+    add(
+        "proc-id:std::math::u64::checked_add",
+        Dec::ProcedureId,
+        Serializable::to_bytes(&ProcedureId::new("std::math::u64::checked_add")),
+        None,
+        vec![],
+    );
+    // proofs (Blake3-192, 96-bit options)
+    let (p1, c1) = make_proof("begin push.3 push.5 add swap drop end", &[1, 2], None);
+    let b1 = p1.to_bytes();
+    let l1 = locate_proof_fields(&p1, &b1);
+    add("proof:add", Dec::Proof, b1, Some(c1.clone()), l1);
+    let (p2, c2) = make_proof(
+        "proc.f.1 loc_load.0 loc_store.0 end begin syscall.k1 call.f repeat.20 dup end push.1 if.true hperm else drop end end",
+        &[7, 8, 9],
+        Some("export.k1 push.1 add end export.k2 caller dropw end"),
+    );
+    let b2 = p2.to_bytes();
+    let l2 = locate_proof_fields(&p2, &b2);
+    add("proof:kernel+overflow", Dec::Proof, b2, Some(c2), l2);
+    // the same first proof in the Deserializable layout (hash function byte last)
+    let b3 = Serializable::to_bytes(&p1);
+    let l3: Vec<u32> = locate_proof_fields(&p1, &p1.to_bytes()).iter().map(|o| o - 1).collect();
+    add("proof:add(Deserializable layout)", Dec::ProofSer, b3, Some(c1), l3);
+    seeds
+}
+
+// PARENT: tasks and lanes
+// ================================================================================================
+
+#[derive(Clone, Debug)]
+struct Task {
+    id: u64,
+    dec: Dec,
+    seed: Option<usize>,
+    spec: String,
+    start: u64,
+    end: u64,
+}
+
+struct CaseFail {
+    dec: Dec,
+    seed: Option<usize>,
+    spec: String,
+    idx: u64,
+    stage: String,
+    msg: String,
+}
+
+#[derive(Default)]
+struct Results {
+    /// (decoder, family kind, class) → count
+    hist: BTreeMap<(String, String, String), u64>,
+    fails: Vec<CaseFail>,
+    samples: Vec<(Dec, Option<usize>, String, u64, String)>,
+    /// (decoder, family kind) → busy microseconds inside the workers
+    micros: BTreeMap<(String, String), u64>,
+    /// the single slowest case (wall microseconds inside the worker, description)
+    slowest: (u64, String),
+    deaths: u64,
+    children: u64,
+    death_cap_hit: bool,
+}
+
+struct Shared<'a> {
+    seeds: &'a [Seed],
+    queue: Mutex<VecDeque<Task>>,
+    results: Mutex<Results>,
+    next_id: AtomicU64,
+    tmp: PathBuf,
+    stop: AtomicBool,
+}
+
+struct Worker {
+    child: Child,
+    stdin: BufWriter<ChildStdin>,
+    stdout: BufReader<ChildStdout>,
+    sent: HashSet<usize>,
+    progress_path: PathBuf,
+    stderr_path: PathBuf,
+    done: Arc<AtomicBool>,
+    killed: Arc<Mutex<Option<String>>>,
+}
+
+/// user + system CPU seconds of a process (0 if it is gone)
+fn proc_cpu_seconds(pid: u32) -> f64 {
+    let Ok(s) = std::fs::read_to_string(format!("/proc/{pid}/stat")) else { return 0.0 };
+    // fields after the parenthesised command name; utime and stime are the 14th and 15th overall
+    let Some(rest) = s.rfind(')').map(|i| &s[i + 1..]) else { return 0.0 };
+    let f: Vec<&str> = rest.split_whitespace().collect();
+    let ticks: f64 = f.get(11).and_then(|x| x.parse::<f64>().ok()).unwrap_or(0.0) + f.get(12).and_then(|x| x.parse::<f64>().ok()).unwrap_or(0.0);
+    ticks / 100.0
+}
+
+fn try_read_progress(path: &Path) -> Option<(u64, u64)> {
+    let mut b = [0u8; 16];
+    let mut f = std::fs::File::open(path).ok()?;
+    f.read_exact(&mut b).ok()?;
+    Some((u64::from_le_bytes(b[..8].try_into().unwrap()), u64::from_le_bytes(b[8..].try_into().unwrap())))
+}
+
+fn read_progress(path: &Path) -> (u64, u64) {
+    try_read_progress(path).expect("progress file")
+}
+
+impl Worker {
+    fn spawn(tmp: &Path, tag: &str) -> Worker {
+        static SERIAL: AtomicU64 = AtomicU64::new(0);
+        let n = SERIAL.fetch_add(1, Ordering::SeqCst);
+        let progress_path = tmp.join(format!("progress-{tag}-{n}"));
+        let stderr_path = tmp.join(format!("stderr-{tag}-{n}"));
+        let mut cell = [0u8; 16];
+        cell[8..].copy_from_slice(&u64::MAX.to_le_bytes());
+        std::fs::write(&progress_path, cell).expect("create progress file");
+        let errf = std::fs::File::create(&stderr_path).expect("create stderr file");
+        let exe = std::env::current_exe().expect("current_exe");
+        let mut child = Command::new(exe)
+            .args(["C19", "--tier", "quick"])
+            .env(WORKER_ENV, "1")
+            .env("VERIF_THREADS", "1")
+            .stdin(Stdio::piped())
+            .stdout(Stdio::piped())
+            .stderr(Stdio::from(errf))
+            .spawn()
+            .expect("spawn worker");
+        let stdin = BufWriter::new(child.stdin.take().expect("stdin"));
+        let stdout = BufReader::new(child.stdout.take().expect("stdout"));
+        let done = Arc::new(AtomicBool::new(false));
+        let killed = Arc::new(Mutex::new(None));
+        // watchdog: resident memory cap and no-progress timeout
+        {
+            let (done, killed, pid, ppath) = (done.clone(), killed.clone(), child.id(), progress_path.clone());
+            std::thread::spawn(move || {
+                let mut last = (u64::MAX, u64::MAX);
+                let mut last_cpu_mark = ((u64::MAX, u64::MAX), 0f64);
+                let mut since = Instant::now();
+                while !done.load(Ordering::SeqCst) {
+                    std::thread::sleep(Duration::from_millis(100));
+                    // the file disappears when the lane retires the worker
+                    let Some(cur) = try_read_progress(&ppath) else { break };
+                    if cur != last {
+                        last = cur;
+                        since = Instant::now();
+                    }
+                    let mut reason = None;
+                    // a case is declared hung when it has consumed HANG_CPU_SECS of CPU time (the
+                    // wall clock would depend on the load of the machine); a generous wall-clock
+                    // limit catches a blocked process
+                    let cpu = proc_cpu_seconds(pid);
+                    if cur != last_cpu_mark.0 {
+                        last_cpu_mark = (cur, cpu);
+                    }
+                    if cur.1 != u64::MAX && (cpu - last_cpu_mark.1 > HANG_CPU_SECS as f64 || since.elapsed() > Duration::from_secs(HANG_WALL_SECS)) {
+                        reason = Some(format!("timeout: one case used more than {HANG_CPU_SECS}s of CPU or {HANG_WALL_SECS}s of wall time (killed)"));
+                    }
+                    if let Ok(s) = std::fs::read_to_string(format!("/proc/{pid}/statm")) {
+                        let rss_pages: u64 = s.split_whitespace().nth(1).and_then(|x| x.parse().ok()).unwrap_or(0);
+                        if rss_pages * 4096 > RSS_CAP_BYTES {
+                            reason = Some(format!("resident memory above {} MiB (killed)", RSS_CAP_BYTES >> 20));
+                        }
+                    }
+                    if let Some(r) = reason {
+                        if done.load(Ordering::SeqCst) {
+                            break;
+                        }
+                        *killed.lock().unwrap() = Some(r);
+                        unsafe { libc::kill(pid as i32, libc::SIGKILL) };
+                        break;
+                    }
+                }
+            });
+        }
+        let mut w = Worker { child, stdin, stdout, sent: HashSet::new(), progress_path, stderr_path, done, killed };
+        let line = format!("P\t{}\n", w.progress_path.display());
+        w.send(&line);
+        w
+    }
+
+    fn send(&mut self, line: &str) {
+        // a write error means the child is gone; the reader side notices and handles it
+        let _ = self.stdin.write_all(line.as_bytes());
+        let _ = self.stdin.flush();
+    }
+
+    fn send_seed(&mut self, seed: &Seed) {
+        if self.sent.insert(seed.id) {
+            let line = format!("S\t{}\t{}\n", seed.id, hex(&seed.bytes));
+            self.send(&line);
+            if let Some(c) = &seed.pctx {
+                let line = format!("C\t{}\t{}\t{}\t{}\n", seed.id, hex(&c[0]), hex(&c[1]), hex(&c[2]));
+                self.send(&line);
+            }
+        }
+    }
+
+    /// Sends one task and collects its result lines. `Err(cause)` if the child died.
+    fn run(&mut self, task: &Task) -> Result<Vec<String>, String> {
+        let line = format!(
+            "T\t{}\t{}\t{}\t{}\t{}\t{}\n",
+            task.id,
+            task.dec.name(),
+            task.seed.map(|s| s.to_string()).unwrap_or_else(|| "-".into()),
+            task.spec,
+            task.start,
+            task.end
+        );
+        self.send(&line);
+        let mut lines = vec![];
+        loop {
+            let mut l = String::new();
+            match self.stdout.read_line(&mut l) {
+                Ok(0) | Err(_) => return Err(self.reap()),
+                Ok(_) => {
+                    let l = l.trim_end_matches('\n').to_string();
+                    if l.starts_with("D\t") {
+                        assert_eq!(l, format!("D\t{}", task.id), "worker protocol out of sync");
+                        return Ok(lines);
+                    }
+                    lines.push(l);
+                }
+            }
+        }
+    }
+
+    /// Waits for a dead child and describes how it died.
+    fn reap(&mut self) -> String {
+        use std::os::unix::process::ExitStatusExt;
+        let status = self.child.wait().expect("wait for worker");
+        self.done.store(true, Ordering::SeqCst);
+        let stderr = std::fs::read_to_string(&self.stderr_path).unwrap_or_default();
+        if let Some(k) = self.killed.lock().unwrap().clone() {
+            return k;
+        }
+        let how = match (status.signal(), status.code()) {
+            (Some(s), _) => format!("signal {s}"),
+            (None, Some(c)) => format!("exit code {c}"),
+            _ => "unknown status".into(),
+        };
+        if status.signal().is_none() {
+            // a worker that exits by itself is a harness failure, never a verdict
+            panic!("C19 worker exited unexpectedly ({how}); stderr: {}", stderr.chars().take(2000).collect::<String>());
+        }
+        if stderr.contains("has overflowed its stack") {
+            format!("stack_overflow ({how})")
+        } else if stderr.contains("memory allocation of") {
+            format!("alloc_failure ({how})")
+        } else {
+            format!("abort ({how}): {}", one_line(&stderr.chars().take(300).collect::<String>()))
+        }
+    }
+
+    fn finish(mut self) {
+        drop(self.stdin);
+        let _ = self.child.wait();
+        self.done.store(true, Ordering::SeqCst);
+        let _ = std::fs::remove_file(&self.progress_path);
+        let _ = std::fs::remove_file(&self.stderr_path);
+    }
+
+    fn discard(mut self) {
+        let _ = self.child.kill();
+        let _ = self.child.wait();
+        self.done.store(true, Ordering::SeqCst);
+        let _ = std::fs::remove_file(&self.progress_path);
+        let _ = std::fs::remove_file(&self.stderr_path);
+    }
+}
+
+fn merge_lines(res: &mut Results, task: &Task, lines: &[String]) {
+    let fam = Fam::kind(&task.spec).to_string();
+    for l in lines {
+        let f: Vec<&str> = l.split('\t').collect();
+        match f[0] {
+            "H" => {
+                *res.hist.entry((task.dec.name().to_string(), fam.clone(), f[1].to_string())).or_insert(0) +=
+                    f[2].parse::<u64>().expect("count");
+            }
+            "F" => res.fails.push(CaseFail {
+                dec: task.dec,
+                seed: task.seed,
+                spec: task.spec.clone(),
+                idx: f[1].parse().expect("idx"),
+                stage: f[2].to_string(),
+                msg: f[3..].join(" "),
+            }),
+            "X" => {
+                let us: u64 = f[2].parse().expect("micros");
+                if us > res.slowest.0 {
+                    res.slowest = (us, format!("{} {} #{}", task.dec.name(), task.spec.chars().take(40).collect::<String>(), f[1]));
+                }
+            }
+            "E" => {
+                *res.micros.entry((task.dec.name().to_string(), fam.clone())).or_insert(0) += f[1].parse::<u64>().expect("micros");
+            }
+            "M" => {
+                if res.samples.len() < 200_000 {
+                    res.samples.push((task.dec, task.seed, task.spec.clone(), f[1].parse().expect("idx"), f[2].to_string()));
+                }
+            }
+            other => panic!("unexpected worker line {other}"),
+        }
+    }
+}
+
+/// Runs exactly one case in a fresh child. Ok(lines) or Err(cause of death).
+fn run_single(tmp: &Path, seeds: &[Seed], task: &Task, idx: u64) -> Result<Vec<String>, String> {
+    let mut w = Worker::spawn(tmp, "single");
+    if let Some(s) = task.seed {
+        w.send_seed(&seeds[s]);
+    }
+    let t = Task { id: 0, start: idx, end: idx + 1, ..task.clone() };
+    let r = w.run(&t);
+    match r {
+        Ok(l) => {
+            w.finish();
+            Ok(l)
+        }
+        Err(c) => {
+            w.discard();
+            Err(c)
+        }
+    }
+}
+
+fn lane(sh: &Shared, lane_id: usize) {
+    let mut worker: Option<Worker> = None;
+    loop {
+        if sh.stop.load(Ordering::SeqCst) {
+            break;
+        }
+        let Some(task) = sh.queue.lock().unwrap().pop_front() else { break };
+        if worker.is_none() {
+            worker = Some(Worker::spawn(&sh.tmp, &format!("lane{lane_id}")));
+            sh.results.lock().unwrap().children += 1;
+        }
+        let w = worker.as_mut().unwrap();
+        if let Some(s) = task.seed {
+            w.send_seed(&sh.seeds[s]);
+        }
+        match w.run(&task) {
+            Ok(lines) => merge_lines(&mut sh.results.lock().unwrap(), &task, &lines),
+            Err(cause) => {
+                let w = worker.take().unwrap();
+                let (tid, idx) = read_progress(&w.progress_path);
+                w.discard();
+                assert!(
+                    tid == task.id && idx >= task.start && idx < task.end,
+                    "worker died outside of a case (task {tid} idx {idx}, expected task {}): {cause}",
+                    task.id
+                );
+                // determinism: the same input alone in a fresh child must die the same way
+                let again = run_single(&sh.tmp, sh.seeds, &task, idx);
+                let mut res = sh.results.lock().unwrap();
+                res.children += 1;
+                res.deaths += 1;
+                match again {
+                    Err(c2) => {
+                        assert_eq!(
+                            cause.split(' ').next(),
+                            c2.split(' ').next(),
+                            "child death is not deterministic: first '{cause}', alone '{c2}'"
+                        );
+                        res.fails.push(CaseFail {
+                            dec: task.dec,
+                            seed: task.seed,
+                            spec: task.spec.clone(),
+                            idx,
+                            stage: "abort".into(),
+                            msg: c2,
+                        });
+                        *res.hist.entry((task.dec.name().to_string(), Fam::kind(&task.spec).to_string(), "FAIL:abort".into())).or_insert(0) += 1;
+                    }
+                    Ok(_) => panic!(
+                        "child death is not deterministic: {} case {idx} of {} killed the worker ({cause}) but completes when run alone",
+                        task.dec.name(),
+                        task.spec
+                    ),
+                }
+                if res.deaths >= MAX_DEATHS {
+                    res.death_cap_hit = true;
+                    sh.stop.store(true, Ordering::SeqCst);
+                }
+                drop(res);
+                // re-queue the rest of the task around the fatal case
+                let mut q = sh.queue.lock().unwrap();
+                if idx + 1 < task.end {
+                    q.push_front(Task { id: sh.next_id.fetch_add(1, Ordering::SeqCst), start: idx + 1, ..task.clone() });
+                }
+                if task.start < idx {
+                    q.push_front(Task { id: sh.next_id.fetch_add(1, Ordering::SeqCst), end: idx, ..task.clone() });
+                }
+            }
+        }
+    }
+    if let Some(w) = worker {
+        w.finish();
+    }
+}
+
+fn run_tasks(seeds: &[Seed], tasks: Vec<Task>, tmp: &Path) -> Results {
+    let next = tasks.iter().map(|t| t.id).max().unwrap_or(0) + 1;
+    let sh = Shared {
+        seeds,
+        queue: Mutex::new(tasks.into()),
+        results: Mutex::new(Results::default()),
+        next_id: AtomicU64::new(next),
+        tmp: tmp.to_path_buf(),
+        stop: AtomicBool::new(false),
+    };
+    std::thread::scope(|s| {
+        let hs: Vec<_> = (0..LANES).map(|i| { let sh = &sh; s.spawn(move || lane(sh, i)) }).collect();
+        for h in hs {
+            if let Err(e) = h.join() {
+                std::panic::resume_unwind(e);
+            }
+        }
+    });
+    sh.results.into_inner().unwrap()
+}
+
+/// estimated cost of one case, to size the tasks
+fn est_ns(dec: Dec, seed_len: usize) -> u64 {
+    match dec {
+        Dec::Proof | Dec::ProofSer => 1_200_000,
+        _ => 400 + 25 * seed_len as u64,
+    }
+}
+
+struct Planner {
+    tasks: Vec<Task>,
+    planned: BTreeMap<String, u64>,
+}
+
+impl Planner {
+    fn add(&mut self, dec: Dec, seed: Option<&Seed>, spec: String) -> u64 {
+        let len = seed.map(|s| s.bytes.len()).unwrap_or(0);
+        let fam = Fam::parse(&spec, len);
+        let n = fam.count();
+        let per = if matches!(fam, Fam::Nest { .. }) { 1 } else { (150_000_000 / est_ns(dec, len)).clamp(8, 400_000) };
+        let mut a = 0;
+        while a < n {
+            let b = (a + per).min(n);
+            let id = self.tasks.len() as u64 + 1;
+            self.tasks.push(Task { id, dec, seed: seed.map(|s| s.id), spec: spec.clone(), start: a, end: b });
+            a = b;
+        }
+        *self.planned.entry(Fam::kind(&spec).to_string()).or_insert(0) += n;
+        n
+    }
+}
+
+/// number of distinct, non-identity mutants among the per-seed families (a mutant is identified by
+/// its resulting length and the set of (offset, byte) positions where it differs from the seed)
+fn distinct_mutants(seed: &[u8], specs: &[String]) -> u64 {
+    let mut set: HashSet<Vec<(u32, u8)>> = HashSet::new();
+    let mut n = 0u64;
+    for spec in specs {
+        let fam = Fam::parse(spec, seed.len());
+        match &fam {
+            Fam::Trunc { lens } => n += lens.len() as u64,
+            Fam::Raw => {}
+            Fam::Flip1 { bits } => {
+                for &b in bits {
+                    let o = b as usize / 8;
+                    set.insert(vec![(o as u32, seed[o] ^ (1 << (b % 8)))]);
+                }
+            }
+            Fam::Flip2 { pairs } => {
+                for &(i, j) in pairs {
+                    let (oi, oj) = (i as usize / 8, j as usize / 8);
+                    if oi == oj {
+                        set.insert(vec![(oi as u32, seed[oi] ^ (1 << (i % 8)) ^ (1 << (j % 8)))]);
+                    } else {
+                        set.insert(vec![(oi as u32, seed[oi] ^ (1 << (i % 8))), (oj as u32, seed[oj] ^ (1 << (j % 8)))]);
+                    }
+                }
+            }
+            Fam::Field { offs } => {
+                for idx in 0..fam.count() {
+                    let (o, window) = Fam::field_window(seed, offs, idx);
+                    let diff: Vec<(u32, u8)> = window
+                        .iter()
+                        .enumerate()
+                        .filter(|(k, b)| seed[o + k] != **b)
+                        .map(|(k, b)| ((o + k) as u32, *b))
+                        .collect();
+                    if !diff.is_empty() {
+                        set.insert(diff);
+                    }
+                }
+            }
+            _ => {}
+        }
+    }
+    n + set.len() as u64
+}
+
+impl Fam {
+    /// offset and new content of the window [o, min(o+w, len)) of a field mutant
+    fn field_window(seed: &[u8], offs: &[u32], idx: u64) -> (usize, Vec<u8>) {
+        let (o, w, vi) = Fam::field_case(offs, idx);
+        let hi = (o + w).min(seed.len());
+        let mut cur = 0u64;
+        for k in o..hi {
+            cur |= (seed[k] as u64) << (8 * (k - o));
+        }
+        let max = (1u64 << (8 * w)) - 1;
+        let new = match vi {
+            0 => 0,
+            1 => 1,
+            2 => cur.wrapping_sub(1) & max,
+            3 => cur.wrapping_add(1) & max,
+            _ => max,
+        };
+        (o, (o..hi).map(|k| (new >> (8 * (k - o))) as u8).collect())
+    }
+}
+
+// SIGNATURES, REPORTING
+// ================================================================================================
+
+/// panic site: the message with numbers blanked (they vary with the input) + file:line
+fn norm_panic(msg: &str) -> String {
+    let s = guard::short_panic(msg);
+    match s.rfind(" @ ") {
+        Some(i) => {
+            let (m, loc) = s.split_at(i);
+            // locations inside the standard library carry the toolchain's commit hash
+            let loc = match (loc.find("/rustc/"), loc.find("/library/")) {
+                (Some(a), Some(b)) if a < b => format!("{}rustc:{}", &loc[..a], &loc[b + 1..]),
+                // `<anywhere>/<crate dir>/src/...` → `<crate dir>/src/...`, so that the site does not
+                // depend on where the checkout of cf/miden-vm lives (check_at uses scratch worktrees)
+                _ => match loc.find("/src/") {
+                    Some(i) => {
+                        let start = loc[..i].rfind('/').map(|j| j + 1).unwrap_or(3);
+                        format!(" @ {}", &loc[start.max(3)..])
+                    }
+                    None => loc.to_string(),
+                },
+            };
+            let mut out = String::new();
+            let mut in_num = false;
+            let mut in_quote = false;
+            for c in m.chars() {
+                // quoted input fragments and numbers vary with the input
+                if c == '`' {
+                    in_quote = !in_quote;
+                    if in_quote {
+                        out.push_str("`..`");
+                    }
+                    continue;
+                }
+                if in_quote {
+                    continue;
+                }
+                if c.is_ascii_digit() {
+                    if !in_num {
+                        out.push('#');
+                    }
+                    in_num = true;
+                } else {
+                    in_num = false;
+                    out.push(c);
+                }
+            }
+            format!("{out}{loc}")
+        }
+        None => s,
+    }
+}
+
+fn signature_of(dec: Dec, stage: &str, msg: &str) -> Value {
+    if stage.ends_with("_panic") {
+        json!({"kind": "decoder_panic", "decoder": dec.name(), "stage": stage.trim_end_matches("_panic"), "panic": norm_panic(msg)})
+    } else if stage == "abort" {
+        json!({"kind": "decoder_abort", "decoder": dec.name(), "cause": msg.split(' ').next().unwrap_or("")})
+    } else {
+        json!({"kind": "roundtrip", "decoder": dec.name(), "stage": stage})
+    }
+}
+
+fn case_json(seeds: &[Seed], dec: Dec, seed: Option<usize>, spec: &str, idx: u64) -> (Value, String, Vec<u8>) {
+    let empty = Arc::new(vec![]);
+    let sbytes = seed.map(|s| seeds[s].bytes.clone()).unwrap_or(empty);
+    let fam = Fam::parse(spec, sbytes.len());
+    let bytes = fam.bytes(&sbytes, idx);
+    let stack_mib = decode_stack_for(spec) >> 20;
+    let what = format!(
+        "{}{}{}",
+        fam.describe(idx),
+        seed.map(|s| format!(" of seed '{}' ({} bytes)", seeds[s].name, sbytes.len())).unwrap_or_default(),
+        if matches!(fam, Fam::Nest { .. }) { format!(", decoded on a thread with a {stack_mib} MiB stack") } else { String::new() }
+    );
+    let mut case = json!({
+        "kind": "bytes",
+        "decoder": dec.name(),
+        "family": spec,
+        "index": idx,
+        "mutation": what,
+        "len": bytes.len(),
+        "stack_mib": stack_mib,
+        "bytes_hex": hex(&bytes),
+    });
+    if let Some(s) = seed {
+        case["seed"] = json!(seeds[s].name);
+        if let Some(c) = &seeds[s].pctx {
+            case["proof_ctx"] = json!({"program_info": hex(&c[0]), "stack_inputs": hex(&c[1]), "stack_outputs": hex(&c[2])});
+        }
+    }
+    (case, what, bytes)
+}
+
+fn preview(bytes: &[u8]) -> String {
+    if bytes.len() <= 40 {
+        hex(bytes)
+    } else {
+        format!("{}…{} ({} bytes)", hex(&bytes[..24]), hex(&bytes[bytes.len() - 12..]), bytes.len())
+    }
+}
+
+fn report_fails(ctx: &Ctx, seeds: &[Seed], fails: &mut Vec<CaseFail>) {
+    fails.sort_by(|a, b| (a.dec, a.seed, &a.spec, a.idx).cmp(&(b.dec, b.seed, &b.spec, b.idx)));
+    let mut per_sig: HashMap<String, u64> = HashMap::new();
+    for f in fails.iter() {
+        let sig = signature_of(f.dec, &f.stage, &f.msg);
+        let n = per_sig.entry(sig.to_string()).or_insert(0);
+        *n += 1;
+        if *n > MAX_LISTED_PER_SIGNATURE {
+            ctx.count("failing_cases_not_listed_individually", 1);
+            continue;
+        }
+        let (case, what, bytes) = case_json(seeds, f.dec, f.seed, &f.spec, f.idx);
+        let shown = if f.stage.ends_with("_panic") { guard::short_panic(&f.msg) } else { f.msg.clone() };
+        ctx.fail(sig, format!("{}: {} -> {}: {} [input {}]", f.dec.name(), what, f.stage, shown, preview(&bytes)), case);
+    }
+}
+
+// FIELD-ELEMENT VALIDATION OF THE INTEGER CONSTRUCTORS
+// ================================================================================================
+
+fn felt_case(ctx: &Ctx, api: &str, stack: &[u64], overflow: &[u64], expect_ok: bool) -> &'static str {
+    let (s, o) = (stack.to_vec(), overflow.to_vec());
+    let r: Result<bool, String> = match api {
+        "StackInputs::try_from_values" => guard::catch(|| StackInputs::try_from_values(s).is_ok()),
+        "AdviceInputs::with_stack_values" => guard::catch(|| AdviceInputs::default().with_stack_values(s).is_ok()),
+        "StackOutputs::new" => guard::catch(|| StackOutputs::new(s, o).is_ok()),
+        _ => panic!("unknown api {api}"),
+    };
+    let case = json!({"kind": "felt", "api": api, "stack": stack, "overflow_addrs": overflow, "expect_ok": expect_ok});
+    match r {
+        Err(p) => {
+            ctx.fail(json!({"kind": "constructor_panic", "api": api, "panic": norm_panic(&p)}), format!("{api} panicked: {}", guard::short_panic(&p)), case);
+            "panic"
+        }
+        Ok(ok) if ok == expect_ok => {
+            if ok {
+                "accepted_canonical"
+            } else {
+                "rejected_noncanonical"
+            }
+        }
+        Ok(true) => {
+            ctx.fail(json!({"kind": "noncanonical_accepted", "api": api}), format!("{api} accepted a value >= p: stack {stack:?} overflow {overflow:?}"), case);
+            "accepted_noncanonical"
+        }
+        Ok(false) => {
+            ctx.fail(json!({"kind": "canonical_rejected", "api": api}), format!("{api} rejected canonical values: stack {stack:?} overflow {overflow:?}"), case);
+            "rejected_canonical"
+        }
+    }
+}
+
+fn felt_checks(ctx: &Ctx) -> (u64, BTreeMap<String, u64>) {
+    let mut hist: BTreeMap<String, u64> = BTreeMap::new();
+    let mut n = 0;
+    for api in ["StackInputs::try_from_values", "AdviceInputs::with_stack_values", "StackOutputs::new"] {
+        for len in [1usize, 16, 17, 40] {
+            let base: Vec<u64> = (0..len as u64).map(|i| i + 1).collect();
+            let ov: Vec<u64> = if api == "StackOutputs::new" && len > 16 { (0..(len + 1 - 16) as u64).collect() } else { vec![] };
+            let positions = len + ov.len();
+            for pos in 0..positions {
+                for (v, ok) in [(P - 1, true), (P, false), (P + 1, false), (u64::MAX, false)] {
+                    let (mut s, mut o) = (base.clone(), ov.clone());
+                    if pos < len {
+                        s[pos] = v;
+                    } else {
+                        o[pos - len] = v;
+                    }
+                    let class = felt_case(ctx, api, &s, &o, ok);
+                    *hist.entry(format!("{api}:{class}")).or_insert(0) += 1;
+                    n += 1;
+                }
+            }
+        }
+    }
+    (n, hist)
+}
+
+// ENTRY POINT
+// ================================================================================================
+
+fn tmp_dir(ctx: &Ctx) -> PathBuf {
+    let d = ctx.root.join("target").join(format!("c19-tmp-{}", std::process::id()));
+    std::fs::create_dir_all(&d).expect("create scratch directory for progress cells");
+    d
+}
+
+fn replay_case(ctx: &Ctx, case: &Value) -> i32 {
+    if case["kind"] == "felt" {
+        let arr = |k: &str| -> Vec<u64> { case[k].as_array().map(|a| a.iter().map(|x| x.as_u64().unwrap()).collect()).unwrap_or_default() };
+        let api = case["api"].as_str().unwrap();
+        let expect = case["expect_ok"].as_bool().unwrap();
+        let class = felt_case(ctx, api, &arr("stack"), &arr("overflow_addrs"), expect);
+        println!("{api}: observed {class}; expected {}", if expect { "Ok (all values < p)" } else { "Err (a value >= p is present)" });
+        return ctx.finish("fault_enumeration", json!({}), &[]);
+    }
+    let dec = Dec::from_name(case["decoder"].as_str().expect("decoder"));
+    let bytes = unhex(case["bytes_hex"].as_str().expect("bytes_hex"));
+    let pctx = case.get("proof_ctx").filter(|v| v.is_object()).map(|c| {
+        [
+            unhex(c["program_info"].as_str().unwrap()),
+            unhex(c["stack_inputs"].as_str().unwrap()),
+            unhex(c["stack_outputs"].as_str().unwrap()),
+        ]
+    });
+    println!("decoder {}: input of {} bytes: {}", dec.name(), bytes.len(), preview(&bytes));
+    if let Some(m) = case["mutation"].as_str() {
+        println!("  ({m})");
+    }
+    let seeds = vec![Seed { id: 0, name: "replay input".into(), dec, bytes: Arc::new(bytes), pctx, located: vec![] }];
+    let tmp = tmp_dir(ctx);
+    let stack_mib = case["stack_mib"].as_u64().unwrap_or((DECODE_STACK >> 20) as u64);
+    let task = Task { id: 0, dec, seed: Some(0), spec: format!("raw:{stack_mib}"), start: 0, end: 1 };
+    let r = run_single(&tmp, &seeds, &task, 0);
+    let _ = std::fs::remove_dir_all(&tmp);
+    println!("expected: an Err or an Ok value that re-encodes and decodes to an equal value; no panic, abort or stack overflow (decoded in a child process on a thread with a {stack_mib} MiB stack)");
+    let mut fails = vec![];
+    match r {
+        Err(cause) => {
+            println!("observed: the child process died: {cause}");
+            fails.push(CaseFail { dec, seed: Some(0), spec: task.spec.clone(), idx: 0, stage: "abort".into(), msg: cause });
+        }
+        Ok(lines) => {
+            let mut res = Results::default();
+            merge_lines(&mut res, &task, &lines);
+            for ((_, _, class), _) in &res.hist {
+                println!("observed: outcome class {class}");
+            }
+            for f in &res.fails {
+                println!("observed: {} -> {}", f.stage, if f.stage.ends_with("_panic") { guard::short_panic(&f.msg) } else { f.msg.clone() });
+            }
+            fails = res.fails;
+        }
+    }
+    report_fails(ctx, &seeds, &mut fails);
+    ctx.finish("fault_enumeration", json!({}), &[])
+}
+
+pub fn run(ctx: &Ctx, replay: Option<&Value>) -> i32 {
+    if std::env::var(WORKER_ENV).as_deref() == Ok("1") {
+        return worker_main();
+    }
+    if let Some(case) = replay {
+        return replay_case(ctx, case);
+    }
+    let thorough = ctx.tier == Tier::Thorough;
+    let t0 = Instant::now();
+    let seeds = build_seeds();
+    let seed_time = t0.elapsed().as_secs_f64();
+
+    // ----- plan the space --------------------------------------------------------------------
+    let mut plan = Planner { tasks: vec![], planned: BTreeMap::new() };
+    let mut distinct_nontrivial = 0u64;
+    // (a) short strings
+    for dec in Dec::ALL {
+        let n = plan.add(dec, None, "all:2".into());
+        distinct_nontrivial += n - 1;
+        if thorough && dec.small() {
+            distinct_nontrivial += plan.add(dec, None, "exact:3".into());
+        }
+    }
+    // (b) seeds
+    let mut seed_table = vec![];
+    for s in &seeds {
+        let len = s.bytes.len();
+        let big = len > 8192;
+        let mut specs: Vec<String> = vec!["raw".into()];
+        if !big {
+            specs.push("flip1:all".into());
+            specs.push("trunc:all".into());
+            specs.push("field:all".into());
+        } else {
+            // (flip stride, truncation stride, head bytes, tail bytes); flip stride 0 = every bit.
+            // The Deserializable layout repeats the first proof, so it gets the lighter selection.
+            let (fstride, tstride, head, tail) = match (s.dec, thorough) {
+                (Dec::Proof, false) => (1, 31, 256, 64),
+                (Dec::Proof, true) => (0, 1, 256, 64),
+                (Dec::ProofSer, false) => (8, 251, 256, 64),
+                (Dec::ProofSer, true) => (0, 1, 256, 64),
+                (_, false) => (32, 1021, 256, 64),
+                (_, true) => (1, 61, 256, 64),
+            };
+            if fstride == 0 {
+                specs.push("flip1:all".into());
+            } else {
+                specs.push(format!("flip1:ht:256:64:{fstride}"));
+            }
+            specs.push(format!("trunc:ht:512:64:{tstride}"));
+            let mut offs: Vec<u32> = ht_positions(len, head, tail);
+            offs.extend(s.located.iter().copied());
+            offs.sort_unstable();
+            offs.dedup();
+            specs.push(format!("field:at:{}", offs.iter().map(|o| o.to_string()).collect::<Vec<_>>().join(",")));
+        }
+        if thorough {
+            specs.push("flip2:32".into());
+        }
+        let mut cases = 0;
+        for spec in &specs {
+            cases += plan.add(s.dec, Some(s), spec.clone());
+        }
+        let d = distinct_mutants(&s.bytes, &specs);
+        distinct_nontrivial += d;
+        seed_table.push(json!({"seed": s.name, "decoder": s.dec.name(), "bytes": len, "cases": cases, "distinct_mutants": d,
+            "families": specs.iter().map(|x| if x.len() > 60 { format!("{}…", &x[..60]) } else { x.clone() }).collect::<Vec<_>>(),
+            "located_length_fields": s.located.len()}));
+    }
+    // (c) nesting bombs
+    // on a thread with Rust's default stack for spawned threads (2 MiB) and with the default
+    // main-thread stack of a Linux process (8 MiB)
+    for mib in NEST_STACKS_MIB {
+        distinct_nontrivial += plan.add(Dec::ProgramAst, None, format!("nest:0:{mib}"));
+        distinct_nontrivial += plan.add(Dec::ModuleAst, None, format!("nest:1:{mib}"));
+    }
+
+    // expensive tasks first, so that the lanes finish together
+    let cost = |t: &Task| -> u64 {
+        let len = t.seed.map(|s| seeds[s].bytes.len()).unwrap_or(0);
+        (t.end - t.start) * est_ns(t.dec, len) + if t.spec.starts_with("nest") { 1 << 40 } else { 0 }
+    };
+    let mut tasks = std::mem::take(&mut plan.tasks);
+    tasks.sort_by_key(|t| std::cmp::Reverse(cost(t)));
+    let planned_total: u64 = plan.planned.values().sum();
+    let n_tasks = tasks.len();
+
+    // ----- machinery determinism: the 257 shortest strings of every decoder, twice ------------
+    let tmp = tmp_dir(ctx);
+    let det_tasks = |base: u64| -> Vec<Task> {
+        Dec::ALL.iter().enumerate().map(|(i, d)| Task { id: base + i as u64, dec: *d, seed: None, spec: "all:1".into(), start: 0, end: 257 }).collect()
+    };
+    let d1 = run_tasks(&seeds, det_tasks(1), &tmp);
+    let d2 = run_tasks(&seeds, det_tasks(1), &tmp);
+    assert!(d1.hist == d2.hist && d1.fails.len() == d2.fails.len(), "C19 machinery is not deterministic");
+
+    // ----- run ------------------------------------------------------------------------------
+    let plan_time = t0.elapsed().as_secs_f64();
+    let mut res = run_tasks(&seeds, tasks, &tmp);
+    let run_time = t0.elapsed().as_secs_f64() - plan_time;
+    let _ = std::fs::remove_dir_all(&tmp);
+    let evaluated: u64 = res.hist.values().sum();
+    if res.death_cap_hit {
+        ctx.fail(
+            json!({"kind": "too_many_aborts"}),
+            format!("{} inputs killed their worker process; the sweep was stopped after {MAX_DEATHS} deaths", res.deaths),
+            json!({"kind": "note", "note": "see the individual decoder_abort failures"}),
+        );
+    } else {
+        assert_eq!(evaluated, planned_total, "C19: number of evaluated cases differs from the planned space");
+    }
+    report_fails(ctx, &seeds, &mut res.fails);
+
+    // (d) integer constructors
+    let (felt_n, felt_hist) = felt_checks(ctx);
+
+    // ----- evidence -------------------------------------------------------------------------
+    let mut by_dec: BTreeMap<String, BTreeMap<String, u64>> = BTreeMap::new();
+    let mut by_fam: BTreeMap<String, u64> = BTreeMap::new();
+    let mut accepted_mutants = 0u64;
+    for ((d, f, c), n) in &res.hist {
+        *by_dec.entry(d.clone()).or_default().entry(c.clone()).or_insert(0) += n;
+        *by_fam.entry(f.clone()).or_insert(0) += n;
+        if c.starts_with("ok") && f != "raw" {
+            accepted_mutants += n;
+        }
+    }
+    // a few written-out cases: one per (decoder, family) pair of a fixed, varied list
+    res.samples.sort_by(|a, b| (a.0, a.1, &a.2, a.3).cmp(&(b.0, b.1, &b.2, b.3)));
+    let wanted = [
+        (Dec::ProgramAst, "nest"),
+        (Dec::ModuleAst, "field"),
+        (Dec::Masl, "flip1"),
+        (Dec::Proof, "flip1"),
+        (Dec::Kernel, "all"),
+        (Dec::StackOutputs, "trunc"),
+        (Dec::LibraryPath, "raw"),
+        (Dec::StackInputs, "field"),
+    ];
+    for (d, k) in wanted {
+        let matching: Vec<_> = res.samples.iter().filter(|x| x.0 == d && Fam::kind(&x.2) == k).collect();
+        if let Some((dec, seed, spec, idx, class)) = matching.get(matching.len() / 2) {
+            let (_, what, bytes) = case_json(&seeds, *dec, *seed, spec, *idx);
+            ctx.sample(json!({"decoder": dec.name(), "input": what, "bytes": preview(&bytes), "outcome": class}));
+        }
+    }
+    let cov = json!({
+        "evaluations": evaluated + felt_n,
+        "distinct_nontrivial": distinct_nontrivial + felt_n,
+        "rule": "case = (decoder, input bytes). Enumerated strings are distinct by construction and non-trivial if non-empty; a seed mutant is identified by its length and the set of (offset, byte) positions where it differs from the seed, duplicates across the flip/field families and identity mutants are not counted; every nesting bomb and every (constructor, length, position, value) tuple is distinct",
+        "exhaustive": !res.death_cap_hit,
+        "decoders": Dec::ALL.iter().map(|d| d.name()).collect::<Vec<_>>(),
+        "byte_strings_up_to_len_2_per_decoder": 65_793,
+        "all_3_byte_strings_for_small_decoders": thorough,
+        "seeds": seed_table,
+        "planned_cases_per_family": plan.planned,
+        "evaluated_cases_per_family": by_fam,
+        "outcomes_per_decoder": by_dec,
+        "accepted_mutants_round_tripped": accepted_mutants,
+        "integer_constructor_cases": felt_n,
+        "integer_constructor_outcomes": felt_hist,
+        "nest_depths": NEST_DEPTHS,
+        "field_mutation": "every selected offset as u8/u16/u32 little-endian set to 0, 1, v-1, v+1, max",
+        "big_seed_selection": "seeds > 8 KiB (the exact sets are in seeds[].families): flips = all bits of the first 256 and last 64 bytes + bits 0 and 7 of every stride-th byte (quick: stride 1 for the two proofs, 8 for the proof in the Deserializable layout, 32 for the stdlib library; thorough: every bit of all three proofs seeds, bits 0 and 7 of every byte of the stdlib library); truncations = first 512 / last 64 lengths + stride; field offsets = first 256 / last 64 bytes + all structurally located length fields",
+        "pairs_of_bit_flips_first_32_bytes": thorough,
+        "worker_busy_seconds_per_decoder_and_family": res.micros.iter().map(|((d, f), us)| (format!("{d}/{f}"), json!((*us as f64 / 1e4).round() / 100.0))).collect::<serde_json::Map<String, Value>>(),
+        "nest_bomb_stacks_mib": NEST_STACKS_MIB,
+        "slowest_case": json!({"seconds": res.slowest.0 as f64 / 1e6, "case": res.slowest.1}),
+        "children_spawned": res.children,
+        "inputs_that_killed_a_child": res.deaths,
+        "tasks": n_tasks,
+        "decode_thread_stack_bytes": DECODE_STACK,
+        "seed_build_seconds": (seed_time * 100.0).round() / 100.0,
+        "plan_and_determinism_pass_seconds": ((plan_time - seed_time) * 100.0).round() / 100.0,
+        "sweep_seconds": (run_time * 100.0).round() / 100.0,
+        "profile": if cfg!(debug_assertions) { "checked (debug-assertions, overflow-checks)" } else { "release" },
+    });
+    ctx.finish("fault_enumeration", cov, &[
+        "decoding runs on a thread with an 8 MiB stack inside a child process; a death is attributed to the input published in the shared progress cell and confirmed by re-running that input alone",
+        "a proof is verified against the honest statement of its seed only; acceptance of a mutated proof is not judged here (C02)",
+        "equality is the types' PartialEq (for ASTs it ignores source locations absent on one side); StackInputs are compared by value list",
+        "seeds are a fixed, stated list; other valid encodings are not covered",
+    ])
 }
